@@ -304,7 +304,9 @@ theorem combine_notNone (hd l : Bool) (ps : List PDef) (q : PDef)
     (hps : ∀ p ∈ ps, isNone p = false) (h : combine hd l ps = .ok q) : isNone q = false := by
   unfold combine at h
   split at h
-  · cases h; rfl
+  · split at h
+    · cases h
+    · cases h; rfl
   · split at h
     · cases h
     · cases h; exact hps _ (by simp)
@@ -545,7 +547,7 @@ theorem det_rt (env : Env) : ∀ (p : PDef) (d : Det), Good p = true → fromDef
         refine ⟨.list qs, ?_, ?_, by simp [PDef.isVal]⟩
         · rw [toPlainDet]
           simp only [any_isItem_false ds hq5, any_notItem_true ds hdsne hq5, Bool.false_and,
-            Bool.false_eq_true, if_false, hq1, filter_notNone_id qs hq4, combine, if_true]
+            Bool.false_eq_true, if_false, hq1, filter_notNone_id qs hq4, combine, if_true, Bool.not_true]
         · rw [fromDef]
           simp only [hqall, Bool.false_eq_true, if_false, hq2]
 theorem dets_rt (env : Env) : ∀ (es : List PDef) (ds : List Det), GoodL es = true →
